@@ -262,4 +262,74 @@ class InProgramStack(InProgram):
         return (60, 2) if tier == "quick" else (300, 6)
 
 
-FACETS = [MetahandlerLevel(), InProgram(), InProgramStack()]
+class RedeclaredRefinement(InProgram):
+    """Programs of a first grammar are produced, then the refinement of one int/float/str field is
+    re-declared the documented way (Prod.__init__.__annotations__[f] = Annotated[T, R2]) on the same
+    class objects, a new grammar is extracted and every program produced from it must satisfy the
+    NEW refinement (anything remembered per production class from the first use would show)."""
+
+    name = "redeclared_refinement"
+    flags = Flags(dependent=False, weighted_string=True, interval_range=True, tuples=True)
+
+    def budget(self, tier):
+        return (60, 4) if tier == "quick" else (300, 16)
+
+    def strategy(self, tier):
+        return st.builds(
+            lambda case, ci, fi, k: {**case, "ci": ci, "fi": fi, "k": k},
+            world_cases(self.flags, reps=self.reps, max_ops=6, deciders=("maxdepth", "full", "pigrow")),
+            st.integers(0, 20),
+            st.integers(0, 5),
+            st.integers(0, 3),
+        )
+
+    def run(self, case, rec):
+        from vk.spec import redeclare
+
+        try:
+            w1 = World(case)
+        except Exception:  # noqa: BLE001
+            rec.discard()
+            return
+        try:
+            if not w1.productive():
+                rec.discard()
+                return
+            try:
+                w1.build()
+                w1.run(lambda ev, w: [w.phenotype(i) for i in ev.outputs] if ev.exc is None else None)
+            except Exception:  # noqa: BLE001
+                pass
+
+            def base(t):
+                return t[1][0] if t[0] == "ann" else t[0]
+
+            cands = [(c, fn, ft) for c in case["spec"]["concretes"] for fn, ft in c["fields"] if base(ft) in ("int", "float", "str")]
+            if not cands:
+                rec.discard()
+                return
+            c, fn, old_t = cands[(case["ci"] * 7 + case["fi"]) % len(cands)]
+            k = case["k"]
+            new_r = {
+                "int": [["IntRange", 100, 103], ["IntRange", -7, -7], ["IntList", [41, 43]], ["IntRange", 1000, 1001]],
+                "float": [["FloatRange", 10.0, 11.0], ["FloatRange", -3.5, -3.5], ["FloatList", [0.25, 8.5]], ["FloatRange", 100.0, 100.5]],
+                "str": [["VarRange", ["alpha", "beta"]], ["VarRange", ["gamma"]], ["VarRange", ["p", "q", "r"]], ["VarRange", ["zz"]]],
+            }[base(old_t)][k]
+            nt = ["ann", [base(old_t)], new_r]
+            if nt == old_t:
+                rec.discard()
+                return
+            spec2 = redeclare(w1.mat, c["name"], fn, nt)
+            case2 = {**case, "spec": spec2}
+            try:
+                w2 = World(case2, mat=w1.mat)
+            except Exception:  # noqa: BLE001
+                rec.discard()
+                return
+            rec.label("redeclared:" + base(old_t), "was-refined" if old_t[0] == "ann" else "was-plain")
+            self._run(case2, rec, w2)
+        finally:
+            w1.cleanup()
+
+
+FACETS = [MetahandlerLevel(), InProgram(), InProgramStack(), RedeclaredRefinement()]
